@@ -331,7 +331,7 @@ def is_known_open(v, known) -> dict | None:
 
 # --------------------------------------------------------------------------- replay files
 def write_replay(prop, schedule, violation) -> str:
-    d = os.path.join(VERIF_DIR, "replays", prop)
+    d = os.path.join(VERIF_DIR, "replays" if os.path.realpath(REPO) == "/repo" else "replays_scratch", prop)
     os.makedirs(d, exist_ok=True)
     schedule = dict(schedule)
     schedule["violation"] = violation
@@ -365,7 +365,8 @@ def replay_in_fresh_interpreter(prop, path, timeout=600):
 
 # --------------------------------------------------------------------------- evidence
 def write_evidence(prop, payload: dict):
-    d = os.path.join(VERIF_DIR, "evidence")
+    # runs against another tree (FSIM_REPO: mutation self-tests) must never overwrite the evidence of /repo itself
+    d = os.path.join(VERIF_DIR, "evidence" if os.path.realpath(REPO) == "/repo" else "evidence_scratch")
     os.makedirs(d, exist_ok=True)
     validate_evidence(payload)
     tmp = os.path.join(d, f".{prop}.json.tmp")
